@@ -54,11 +54,37 @@ class Obs(object):
     def __init__(self, lib):
         self.p = lib.Parser()
         self.obs = []
+        self.queue = []
+        self.first = {}
 
     def add(self, kind, inp, formula, **vars):
-        for k, v in vars.items():
-            self.p.set_variable(k, v)
-        self.obs.append({'kind': kind, 'in': inp, 'formula': formula, 'out': value_of(self.p, formula)})
+        self.queue.append(('one', kind, inp, formula, None, vars))
+
+    def flush(self, rng=None, prior=None):
+        """evaluate what was queued, in a seeded random order (an answer must not depend on which call of its kind
+        came first in the process); each observation remembers the first evaluation of its kind, for replay"""
+        q, self.queue = self.queue, []
+        if rng is not None:
+            rng.shuffle(q)
+            # numbers whose numeral needs only the first rows of a conversion table go first
+            q.sort(key=lambda e: 0 if e[1] == 'roman' and e[2]['n'] in (1000, 2000, 3000, 500, 900) else 1)
+        if prior:
+            for f, vars in prior:
+                for k, v in vars.items():
+                    self.p.set_variable(k, v)
+                value_of(self.p, f)
+        for mode, kind, inp, f1, f2, vars in q:
+            for k, v in vars.items():
+                self.p.set_variable(k, v)
+            key = (kind, inp.get('form'), inp.get('f'), inp.get('r'))
+            first = self.first.setdefault(key, {'formula': f1, 'vars': {k: (v if not isinstance(v, Fraction) else float(v)) for k, v in vars.items()}})
+            if mode == 'one':
+                o = {'kind': kind, 'in': inp, 'formula': f1, 'out': value_of(self.p, f1)}
+            else:
+                o = {'kind': kind, 'in': inp, 'formula': f1 + ' ; ' + f2,
+                     'out': {'t': 'arr', 'a': [value_of(self.p, f1), value_of(self.p, f2)]}}
+            o['prior'] = first
+            self.obs.append(o)
 
     def round(self, f, x, d):
         self.add('round', {'f': f, 'x': q(x), 'd': d}, '%s(vx,vd)' % f, vx=pynum(x), vd=d)
@@ -77,10 +103,7 @@ class Obs(object):
 
     def pair(self, kind, inp, f1, f2, **vars):
         # two formulas (the second may fail as a whole when the first is an error value)
-        for k, v in vars.items():
-            self.p.set_variable(k, v)
-        self.obs.append({'kind': kind, 'in': inp, 'formula': f1 + ' ; ' + f2,
-                         'out': {'t': 'arr', 'a': [value_of(self.p, f1), value_of(self.p, f2)]}})
+        self.queue.append(('two', kind, inp, f1, f2, vars))
 
     def hex(self, n):
         self.pair('hex', dec_in(n), 'DEC2HEX(vn)', 'HEX2DEC(DEC2HEX(vn))', vn=n)
@@ -120,6 +143,8 @@ def main(tier, replay=None):
          'int': lambda: O.int1(i['f'], F(i['x'])), 'qm': lambda: O.qm(F(i['n']), F(i['d'])), 'fact': lambda: O.fact(i['n']),
          'hex': lambda: O.hex(N(i)), 'base': lambda: O.base(N(i), i['r']), 'roman': lambda: O.roman(i['n'], i['form']),
          'cplx': lambda: O.cplx(i['a'], i['b'])}[k]()
+        pr = c.get('prior')
+        O.flush(None, [(pr['formula'], pr['vars'])] if pr else None)
         O.obs[0]['id'] = 1
         v = core.validate_obs(run, 'Trace_C17', O.obs, 'replay')
         core.tally(run, O.obs, v, 'c17')
@@ -164,11 +189,12 @@ def main(tier, replay=None):
                     O.base(n, r)
                 pw *= r
     for form in range(0, 5):
-        for n in (range(1, 4000) if not quick else list(range(1, 4000, 9)) + [4, 9, 14, 40, 45, 49, 90, 99, 400, 490, 495, 499, 900, 990, 995, 999, 1999, 3999]):
+        for n in (range(1, 4000) if not quick else list(range(1, 4000, 9)) + [4, 9, 14, 40, 45, 49, 90, 99, 400, 490, 495, 499, 900, 990, 995, 999, 1000, 2000, 3000, 500, 1999, 3999]):
             O.roman(n, form)
     for a in (range(-99, 100) if not quick else range(-99, 100, 11)):
         for b in (range(-99, 100) if not quick else (-99, -1, 0, 1, 7, 99)):
             O.cplx(a, b)
+    O.flush(rng)
     obs = O.obs
     for n, o in enumerate(obs, 1):
         o['id'] = n
